@@ -90,6 +90,7 @@ type Deferred struct {
 	Fun    Value
 	Callee types.Object
 	Env    map[types.Object]Value // unused
+	RecoverAll bool // synthetic: recover any in-flight panic (helpers that run a function and swallow its panic)
 }
 
 type Frame struct {
